@@ -53,6 +53,7 @@ def main (args : List String) : IO UInt32 := do
   | ["model", "c17"] => run C17.machine; return 0
   | ["model", "c18"] => run C18.machine; return 0
   | ["monitor", "life"] => runMonitor LifeMon.monitor; return 0
+  | ["monitor", "lifert"] => runMonitor LifeMon.monitorRT; return 0
   | ["model", "life"] => run Life.machine; return 0
   | ["spec", "life"] => run Life.machine; return 0
   | ["model", "sess"] => run Sess.machine; return 0
